@@ -59,12 +59,21 @@ def _opts(rnd, fill_ok=True):
     return o
 
 
+REAL_ONLY = ('nesting-beyond-interpreter-stack', 'definitions')
+
+
 def _case(s, o, origin):
     # \today is a date string: it can only be masked when it reaches the output unchanged
-    modelled = 'fill_text' not in o and '\\today' not in s
+    modelled = 'fill_text' not in o and '\\today' not in s and origin not in REAL_ONLY
     wire = H.w_e2e(o, s, True) if modelled else [399]
     return {'wire': wire, 'desc': {'s': s, 'opts': o, 'origin': origin, 'modelled': modelled},
             'nt': any(ch in s for ch in '\\$~&')}
+
+
+# nested constructs: (opening, closing, constructs per level)
+DEEP = [('{', '}', 1), ('\\textbf{', '}', 1), ('\\emph{\\textit{', '}}', 2), ('\\begin{itemize}\\item ', '\\end{itemize}', 1),
+        ('\\sqrt{', '}', 1), ('\\frac{a}{', '}', 1), ('\\mbox{$', '$}', 2), ('\\textbf{{', '}}', 2), ('{\\it ', '}', 1),
+        ('\\begin{center}{', '}\\end{center}', 2)]
 
 
 def case_from_desc(d):
@@ -98,6 +107,25 @@ def gen_cases(seed, tier):
         cases.append(_case(docgen.soup(rnd, toks, 1, 10), _opts(rnd), 'soup'))
     for _ in range(1500 if quick else 20000):
         cases.append(_case(docgen.gen_doc(rnd, 'default'), _opts(rnd), 'doc'))
+    # deep nesting (well inside the interpreter's stack): linear work, whatever the options
+    r2 = random.Random(seed + 701)
+    for op, cl, per in DEEP:
+        for levels in (10, 18, 26, 32):
+            n = levels // per
+            for kbg in ({}, {'keep_braced_groups': True}, {'keep_braced_groups': True, 'keep_braced_groups_minlen': r2.choice([0, 1, 2, 5])}):
+                o = _opts(r2, fill_ok=False)
+                o.pop('keep_braced_groups', None)
+                o.pop('keep_braced_groups_minlen', None)
+                o.update(kbg)
+                cases.append(_case(op * n + r2.choice(['a', '', 'a b', '$x$']) + cl * n, o, 'deep-nesting'))
+    # nesting deeper than the interpreter's stack allows (real code only; known finding)
+    for op, cl, per in DEEP[:4]:
+        cases.append(_case(op * 400 + 'a' + cl * 400, {}, 'nesting-beyond-interpreter-stack'))
+    # a parser database passed as parse flag whose macro \dm{name} defines \name while parsing (real code only)
+    for _ in range(150 if quick else 2500):
+        k = r2.randint(0, 6)
+        s = ''.join(r2.choice(['\\dm{zq}', '\\dm{zr}', '\\dm{zs} ', '{\\dm{zt}}', '\\zq{a}']) for _ in range(k)) + docgen.soup(r2, toks, 1, 6)
+        cases.append(_case(s, _opts(r2), 'definitions'))
     return cases
 
 
@@ -110,7 +138,16 @@ def impl(c):
 
 def oracle(c):
     d = c['desc']
-    r = H.l2t_e2e(d['opts'], d['s'], True)
+    try:
+        if d.get('origin') == 'definitions':
+            from pylatexenc.latex2text import LatexNodes2Text
+            r = H.outcome(lambda: LatexNodes2Text(**d['opts']).latex_to_text(d['s'], latex_context=docgen.make_db('defs')))
+        else:
+            r = H.l2t_e2e(d['opts'], d['s'], True)
+    except RecursionError:
+        if d.get('origin') == 'nesting-beyond-interpreter-stack':
+            return ('latex_to_text-raised-RecursionError:nesting-beyond-interpreter-stack', {'length': len(d['s'])})
+        return ('latex_to_text-raised-RecursionError', {})
     if r.startswith('ok '):
         return None
     if r.startswith('exn '):
